@@ -265,6 +265,11 @@ func generate(tier string, search bool, rng *lib.Rand) []Case {
 		cs = append(cs, randomCase(rng.Fork(), p))
 	}
 
+	// (L) ALIASING between the arguments of consecutive Writes (alias.go): every alias mode crossed
+	// with crash-free histories, every hook point of a Write that follows two aliased ones (panic and
+	// real death), a failing Write in between, and seeded random histories
+	cs = append(cs, aliasCases(tier, search, rng, p)...)
+
 	// (J) concurrent reader goroutine while a Dir writes repeatedly
 	nreader := 2
 	if tier == "thorough" {
@@ -277,6 +282,19 @@ func generate(tier string, search bool, rng *lib.Rand) []Case {
 		}
 		c := mk("reader", "b", evs...)
 		c.Reader = true
+		cs = append(cs, c)
+	}
+	for i, mode := range []string{"map", "buf", "after-next"} {
+		if i >= nreader {
+			break
+		}
+		ap := aliasPool(p)
+		var evs []Ev
+		for j := 0; j < 40; j++ {
+			evs = append(evs, write(pick(ap, off+i+j)))
+		}
+		c := mk("alias-reader", "b", evs...)
+		c.Reader, c.Alias = true, mode
 		cs = append(cs, c)
 	}
 	return cs
@@ -353,4 +371,188 @@ func rawCase(rng *lib.Rand) Case {
 		}
 	}
 	return Case{Family: "rawfs", Base: "", TName: fmt.Sprintf("t%d", rng.Intn(10)), Raw: ops, Foreign: true}
+}
+
+// ---------- aliasing families ----------
+
+// aliasPool: rotation-like sets — same names with same-length new contents (what a reused buffer
+// or an in-place update needs to look "unchanged"), one file unchanged, a name dropped, a name
+// added, the empty set, different lengths, a set identical to an earlier one — followed by some
+// sets of the general pool.
+func aliasPool(p []map[string]string) []map[string]string {
+	ap := []map[string]string{
+		{"cert.pem": hx("cert-1"), "key.pem": hx("key-1"), "ca.pem": hx("ca-1")},
+		{"cert.pem": hx("cert-2"), "key.pem": hx("key-2"), "ca.pem": hx("ca-1")},
+		{"cert.pem": hx("cert-3"), "ca.pem": hx("ca-3")},
+		{},
+		{"cert.pem": hx("cert-2"), "key.pem": hx("key-5"), "new.pem": hx("n")},
+		{"cert.pem": hx("a-longer-cert-6"), "key.pem": ""},
+		{"cert.pem": hx("cert-1"), "key.pem": hx("key-1"), "ca.pem": hx("ca-1")},
+		{"key.pem": hx("key-8")},
+		{"cert.pem": hx("cert-9"), "key.pem": hx("key-8")},
+	}
+	return append(ap, p[0], p[1], p[3], p[5], p[4])
+}
+
+func withAlias(c Case, mode string) Case {
+	c.Alias = mode
+	return c
+}
+
+func aliasCases(tier string, search bool, rng *lib.Rand, p []map[string]string) []Case {
+	var cs []Case
+	ap := aliasPool(p)
+	full := tier == "thorough" || search
+	off := rng.Intn(len(ap))
+	bases := []string{"b", "x/y/z", ""}
+
+	// crash-free histories of 2..4 Writes, every rotation of the pool, every mode
+	for mi, mode := range aliasModes {
+		for n := 2; n <= 4; n++ {
+			for r := 0; r < len(ap); r++ {
+				var evs []Ev
+				for i := 0; i < n; i++ {
+					evs = append(evs, write(pick(ap, r+i)))
+				}
+				cs = append(cs, withAlias(mk("alias-nocrash", bases[(n+r+mi)%len(bases)], evs...), mode))
+			}
+		}
+		// the same set again and again, and A B A
+		cs = append(cs,
+			withAlias(mk("alias-nocrash", "b", write(ap[0]), write(ap[0]), write(ap[1]), write(ap[1])), mode),
+			withAlias(mk("alias-nocrash", "b", write(ap[0]), write(ap[1]), write(ap[0]), write(ap[4])), mode),
+			withAlias(mk("alias-nocrash", "b", write(ap[3]), write(ap[0]), write(ap[3]), write(ap[1])), mode))
+	}
+
+	// a Write killed at every hook point (panic) after one / two aliased Writes; the same caller goes
+	// on with a fresh Dir (two more Writes, aliased with everything before)
+	rots := 2
+	if full {
+		rots = len(ap)
+	}
+	for mi, mode := range aliasModes {
+		for r := 0; r < rots; r++ {
+			for lead := 1; lead <= 2; lead++ {
+				f := pick(ap, off+r+lead)
+				for at := 0; at < hookPoints(f); at++ {
+					var evs []Ev
+					for j := 0; j < lead; j++ {
+						evs = append(evs, write(pick(ap, off+r+j)))
+					}
+					evs = append(evs, crash(f, at), write(pick(ap, off+r+lead+1)), write(pick(ap, off+r+lead+2)))
+					cs = append(cs, withAlias(mk("alias-crash", bases[(mi+at)%len(bases)], evs...), mode))
+				}
+			}
+		}
+	}
+
+	// real process death after two aliased Writes of the same Dir (all three in the child), then
+	// recovery and one more Write in-process
+	krots, kstep := 1, 2
+	if full {
+		krots, kstep = 4, 1
+	}
+	for mi, mode := range aliasModes {
+		for r := 0; r < krots; r++ {
+			f := pick(ap, off+r+2)
+			for at := (mi + r) % kstep; at < hookPoints(f)-1; at += kstep {
+				cs = append(cs, withAlias(mk("alias-kill", "b",
+					write(pick(ap, off+r)), write(pick(ap, off+r+1)), kill(f, at), write(pick(ap, off+r+3)), write(pick(ap, off+r+4))), mode))
+			}
+		}
+	}
+
+	// a Write that FAILS (invalid name) between aliased Writes of one Dir: the Dir stays, whatever
+	// it remembers about its last successful Write is one call older than the caller's memory
+	bad := []map[string]string{
+		{"cert.pem": hx("cert-7"), "sub/x": hx("1")},
+		{"": hx("1")},
+	}
+	for _, mode := range aliasModes {
+		for bi, b := range bad {
+			c := mk("alias-badname", "b", write(ap[0]), write(b), write(ap[1]), write(b), write(pick(ap, 4+bi)))
+			c.BadName = true
+			cs = append(cs, withAlias(c, mode))
+		}
+	}
+
+	// relative target, restart (clean, same caller)
+	for mi, mode := range aliasModes {
+		c := mk("alias-reltarget", "a", write(pick(ap, mi)), write(pick(ap, mi+1)), write(pick(ap, mi+2)))
+		c.RelTgt = true
+		cs = append(cs, withAlias(c, mode))
+		cs = append(cs, withAlias(mk("alias-restart", "b", write(pick(ap, mi)), write(pick(ap, mi+1)), restart(), write(pick(ap, mi+2)), write(pick(ap, mi+3))), mode))
+	}
+
+	// seeded random: a random walk over sets (each derived from the previous one by same-length
+	// value changes, dropped / added names, or a pool set), random mode, crashes and restarts
+	nrand := 120
+	if tier == "thorough" {
+		nrand = 1500
+	}
+	if search {
+		nrand = 3000
+	}
+	for i := 0; i < nrand; i++ {
+		cs = append(cs, aliasRandomCase(rng.Fork(), ap))
+	}
+	return cs
+}
+
+func aliasRandomCase(rng *lib.Rand, ap []map[string]string) Case {
+	bases := []string{"b", "x/y", ""}
+	names := []string{"cert.pem", "key.pem", "ca.pem", "new.pem", "a", "b"}
+	cur := map[string]string{}
+	for k, v := range ap[rng.Intn(len(ap))] {
+		cur[k] = v
+	}
+	step := func() map[string]string {
+		switch r := rng.Intn(10); {
+		case r == 0:
+			cur = map[string]string{}
+			for k, v := range ap[rng.Intn(len(ap))] {
+				cur[k] = v
+			}
+		case r == 1:
+			// unchanged set
+		default:
+			nxt := map[string]string{}
+			for k, v := range cur {
+				switch rng.Intn(6) {
+				case 0: // dropped
+				case 1, 2: // unchanged
+					nxt[k] = v
+				case 3: // different length
+					nxt[k] = hex.EncodeToString(rng.Bytes(rng.Intn(12)))
+				default: // same length, other bytes
+					nxt[k] = hex.EncodeToString(rng.Bytes(len(v) / 2))
+				}
+			}
+			if rng.Intn(3) == 0 {
+				nxt[names[rng.Intn(len(names))]] = hex.EncodeToString(rng.Bytes(rng.Intn(8)))
+			}
+			cur = nxt
+		}
+		out := map[string]string{}
+		for k, v := range cur {
+			out[k] = v
+		}
+		return out
+	}
+	nw := rng.Range(2, 5)
+	var evs []Ev
+	writes := 0
+	for writes < nw {
+		switch r := rng.Intn(10); {
+		case r < 2:
+			f := step()
+			evs = append(evs, crash(f, rng.Intn(hookPoints(f))))
+		case r < 3:
+			evs = append(evs, restart())
+		default:
+			evs = append(evs, write(step()))
+			writes++
+		}
+	}
+	return withAlias(mk("alias-random", bases[rng.Intn(len(bases))], evs...), aliasModes[rng.Intn(len(aliasModes))])
 }
